@@ -1,5 +1,146 @@
-(* C12 — placeholder while the streams are brought up *)
-From Coq Require Import NArith List.
-From CA Require Import Model.Listing.
-Theorem C12_stub : overshoot_fixed = true.
-Proof. reflexivity. Qed.
+(* C12 — Listings and symbol tables tell the truth about the output.
+   Models: Model/Listing.v (format_annotated, format_tcgame, format_addrspan of src/util/bitvec_format.rs, as in
+   /repo after the repair of F53) and Model/SymFormat.v (format_default, format_mesen_mlb of
+   src/util/symbol_format.rs).  Specification: Spec/ListingSpec.v (checkers that READ a listing / symbol file and
+   compare it with bits, spans, files and the symbol table; they are extracted and run on the implementation's
+   text on every check).  Only statements; each closed by a lemma of Proofs/ListingP*.v, Proofs/SymFormatP.v.
+
+   The theorems are proved for ALL bit vectors, span lists (any recording order), file sets and symbol trees,
+   at the LAYOUT level: the rows (records) the formatter computes, which its text is the rendering of, list every
+   span exactly once in output order and agree field by field with the output.  The character level (column
+   widths, padding, separators: parse (render rows) = rows) is not proved; its full statements are the
+   Definitions C12_text_*_statement below, and they are evaluated on every generated case by the check. *)
+From Coq Require Import ZArith NArith List Bool.
+From CA Require Import Model.Formats Spec.Decoders Model.CharCounter Spec.LineCol Model.Listing Model.SymFormat
+  Spec.ListingSpec Proofs.ListingP2 Proofs.SymFormatP Proofs.ListingP3.
+Import ListNotations.
+Open Scope N_scope.
+
+(* annotated: whenever the formatter returns a text, that text is the header followed by the rendering of rows
+   such that (rows_truthful): the rows are the layout of the spans sorted by output position; row i names the
+   position of the i-th sorted span as (offset / group_bits, offset mod group_bits); and listed_in_order holds:
+   positions never decrease, and at every position the rows are, one for one and in emission order, the spans
+   recorded there, each row having the span's address, digits whose expansion in the base is the item's bits
+   at that position zero-padded to whole digits, in groups of `group`, and the span's source text. *)
+Theorem C12_rows_annotated : forall fs base g bs spans t,
+  listing_params_ok base g = true ->
+  format_annotated fs base g bs spans = Ok t ->
+  exists rows, rows_truthful fs base g bs spans rows
+    /\ t = header [] base (widths_of (bits_per_digit base) g (sort_lspans spans))
+           ++ concat (map (render_row_annotated g (widths_of (bits_per_digit base) g (sort_lspans spans))) rows).
+Proof. exact annotated_truthful. Qed.
+
+Theorem C12_rows_tcgame : forall fs base g bs spans t,
+  listing_params_ok base g = true ->
+  format_tcgame fs base g bs spans = Ok t ->
+  (base = 2 \/ base = 16) /\
+  exists rows, rows_truthful fs base g bs spans rows
+    /\ t = header [35] base (widths_of (bits_per_digit base) g (sort_lspans spans))
+           ++ concat (map (render_row_tcgame base g (widths_of (bits_per_digit base) g (sort_lspans spans))) rows).
+Proof. exact tcgame_truthful. Qed.
+
+(* addrspan: position (offset / 8, offset mod 8), address, file name and the 0-based line/column of both ends of
+   the span as defined by the specification of C13 — for spans whose ends are on character boundaries *)
+Theorem C12_rows_addrspan : forall fs spans t,
+  Forall (loc_on_boundaries fs) spans ->
+  format_addrspan fs spans = Ok t ->
+  exists rows, layout_addrspan fs spans = Ok rows
+    /\ Forall2 (fun s r => pos_key 8 (a_pos r) = Some (ls_offset s)) (sort_lspans spans) rows
+    /\ listed_in_order (arow_ok fs) (keyed_arows spans rows) spans = true
+    /\ t = addrspan_header ++ concat (map render_arow rows).
+Proof. exact addrspan_truthful. Qed.
+
+(* digits: for every accepted base (2,4,8,16,32,64,128) and group size, base = 2^k with k = bits per digit in 1..7;
+   the digits of an item are below the base, their characters decode back to them, their expansion (k bits
+   each, most significant first) is exactly the item's bits followed by zero bits up to a whole digit, and the
+   groups are `group` digits each but possibly the last *)
+Theorem C12_digits : forall base g bs off size, listing_params_ok base g = true ->
+  let k := bits_per_digit base in
+  let ds := span_digits overshoot_fixed bs off size k in
+  base = 2 ^ k /\ 1 <= k <= 7
+  /\ Forall (fun d => d < base) ds
+  /\ map_opt (digit_of_char (N.to_nat k)) (map (digit_char false) ds) = Some ds
+  /\ bits_of_vals (N.to_nat k) ds = pad (N.to_nat k) (bits_at bs off size)
+  /\ concat (groups_of g ds) = ds /\ groups_ok (N.to_nat g) (groups_of g ds) = true.
+Proof. exact digits_roundtrip. Qed.
+
+(* before the repair of F53 the last digit of an item whose size is not a multiple of k was filled with the bits
+   of the FOLLOWING item; the text then fails the specification (regression witness, `#d3 5` listed as `b`) *)
+Theorem C12_partial_digit_refuted_pinned :
+  exists t, format_annotated_gen false ex_files 16 2 ex_bits ex_spans = Ok t
+    /\ nth_error t 69 = Some 98 /\ nth_error t 91 = Some 99
+    /\ rows_ok_annotated ex_files 16 2 ex_bits ex_spans t = false.
+Proof. exact pinned_witness. Qed.
+
+(* symbols: the file is the rendering `name = 0x<hex>` of listed_entries; an entry is listed iff it is the entry
+   of a declared symbol (at any depth, under the dotted names of its ancestors) that has an integer value and is
+   not noemit, with that value; and at every level of the tree the children are taken in the order of their
+   declaration index, each exactly once (whatever the hash order of the children map) *)
+Theorem C12_symbols : forall globals,
+  format_default globals = concat (map render_default (listed_entries globals))
+  /\ (forall e, In e (listed_entries globals) <-> exists h x, declared [] globals h x /\ sym_entry h x = Some e)
+  /\ (forall l : list sym, nondecreasing (map sym_key (sort_by sym_key l)) = true
+        /\ forall i, filter (fun s => sym_index s =? i) (sort_by sym_key l) = filter (fun s => sym_index s =? i) l).
+Proof. exact symbols_truthful. Qed.
+
+(* mesen-mlb: a `P:` line is printed only for a non-constant symbol of a bank with an output offset, its number is
+   addr - addr_start + outp/8 - 16 and is never negative; within usize it is printed exactly when that number
+   is >= 0 (F22: no wrapped offsets); banks without output give `R:<value>`; constants and symbols outside every
+   bank give nothing *)
+Theorem C12_mesen : forall globals,
+  format_mesen_mlb globals = concat (map render_mesen (listed_entries globals))
+  /\ (forall e o, mesen_entry e = Some (MPrg o) ->
+        e_kind e <> KConstant /\
+        exists b outp, e_bank e = Some b /\ b_outp b = Some outp /\ o = mesen_offset e b outp /\ (0 <= o)%Z)
+  /\ (forall e b outp, e_kind e <> KConstant -> e_bank e = Some b -> b_outp b = Some outp ->
+        (0 <= b_addr_start b <= e_value e)%Z -> (e_value e <= usize_max)%Z ->
+        (e_value e - b_addr_start b + Z.of_N (outp / 8) <= usize_max)%Z ->
+        mesen_entry e = if (0 <=? mesen_offset e b outp)%Z then Some (MPrg (mesen_offset e b outp)) else None)
+  /\ (forall e b, e_kind e <> KConstant -> e_bank e = Some b -> b_outp b = None -> mesen_entry e = Some (MReg (e_value e)))
+  /\ (forall e, e_kind e = KConstant \/ e_bank e = None -> mesen_entry e = None).
+Proof. exact mesen_truthful. Qed.
+
+(* NOT PROVED: the character level.  The extracted checkers read the text itself; these statements say that the
+   model's own text always passes them.  They are evaluated by tools/props/c12.py on every generated case (on the
+   IMPLEMENTATION's text, which the same run shows equal to the model's text). *)
+Definition C12_text_annotated_statement : Prop := forall fs base g bs spans t,
+  listing_params_ok base g = true -> format_annotated fs base g bs spans = Ok t ->
+  rows_ok_annotated fs base g bs spans t = true.
+Definition C12_text_tcgame_statement : Prop := forall fs base g bs spans t,
+  listing_params_ok base g = true -> format_tcgame fs base g bs spans = Ok t ->
+  rows_ok_tcgame fs base g bs spans t = true.
+Definition C12_text_addrspan_statement : Prop := forall fs spans t,
+  Forall (loc_on_boundaries fs) spans -> format_addrspan fs spans = Ok t -> rows_ok_addrspan fs spans t = true.
+(* sibling names are distinct keys of a map and contain no blank, dot or line break; indices are distinct *)
+Definition C12_text_symbols_statement : Prop := forall globals,
+  (forall h l h' x, declared h globals h' x -> l = sym_children x ->
+     NoDup (map sym_index l) /\ NoDup (map sym_name l)) ->
+  (forall h' x, declared [] globals h' x -> forallb (fun c => negb ((c =? 32) || (c =? 46) || (c =? 10))) (sym_name x) = true) ->
+  NoDup (map sym_index globals) -> NoDup (map sym_name globals) ->
+  symbols_ok_default globals (format_default globals) = true
+  /\ symbols_ok_mesen globals (format_mesen_mlb globals) = true.
+
+(* non-vacuity: a bit-granular program whose spans were recorded out of output order, in three formats; the
+   checkers accept the true text and reject a wrong digit, a wrong position and a wrong address *)
+Example C12_nonvacuous_listing :
+  format_annotated ex_files 16 2 ex_bits ex_spans = Ok ex_text
+  /\ rows_ok_annotated ex_files 16 2 ex_bits ex_spans ex_text = true
+  /\ rows_ok_annotated ex_files 16 2 ex_bits ex_spans (set_nth 69 98 ex_text) = false
+  /\ rows_ok_annotated ex_files 16 2 ex_bits ex_spans (set_nth 80 50 ex_text) = false
+  /\ rows_ok_annotated ex_files 16 2 ex_bits ex_spans (set_nth 87 50 ex_text) = false
+  /\ (exists t, format_tcgame ex_files 2 3 ex_bits ex_spans = Ok t /\ rows_ok_tcgame ex_files 2 3 ex_bits ex_spans t = true)
+  /\ (exists t, format_addrspan ex_files ex_spans = Ok t /\ rows_ok_addrspan ex_files ex_spans t = true).
+Proof. exact example_listing. Qed.
+
+(* a symbol tree in a shuffled hash order with a nested label, a negative nested constant, a noemit constant and a
+   label before the 16-byte header *)
+Example C12_nonvacuous_symbols :
+  format_default ex_syms
+  = [97; 32; 61; 32; 48; 120; 56; 48; 48; 48; 10; 97; 46; 121; 32; 61; 32; 48; 120; 56; 48; 48; 52; 10;
+     97; 46; 122; 32; 61; 32; 48; 120; 45; 51; 10; 98; 32; 61; 32; 48; 120; 56; 48; 48; 54; 10; 104; 100; 32; 61; 32; 48; 120; 50; 10]
+  /\ symbols_ok_default ex_syms (format_default ex_syms) = true
+  /\ format_mesen_mlb ex_syms = [80; 58; 48; 58; 97; 10; 80; 58; 52; 58; 97; 95; 121; 10; 80; 58; 54; 58; 98; 10]
+  /\ symbols_ok_mesen ex_syms (format_mesen_mlb ex_syms) = true
+  /\ symbols_ok_default ex_syms (format_default ex_syms ++ [104; 32; 61; 32; 48; 120; 55; 10]) = false
+  /\ symbols_ok_mesen ex_syms (format_mesen_mlb ex_syms ++ [80; 58; 102; 102; 58; 104; 100; 10]) = false.
+Proof. exact example_symbols. Qed.
